@@ -85,7 +85,7 @@ func cmdCheck(args []string) int {
 	replay := fs.String("replay", "", "replay a counterexample file natively")
 	solver := fs.String("solver", "z3-new", "solver")
 	noNative := fs.Bool("nonative", false, "skip native witness validation (debugging)")
-	jobDeadline := fs.Int("jobdeadline", 0, "per job deadline in seconds (default 600 quick / 3000 thorough)")
+	jobDeadline := fs.Int("jobdeadline", 0, "per job deadline in seconds (default 1500 quick / 5400 thorough)")
 	fs.Parse(args)
 	if fs.NArg() < 1 {
 		fmt.Fprintln(os.Stderr, "usage: gosym check <property> [--tier quick|thorough]")
@@ -120,9 +120,11 @@ func cmdCheck(args []string) int {
 	})
 	thorough := *tier == "thorough"
 	if *jobDeadline == 0 {
-		*jobDeadline = 600
+		// generous: the slowest quick job takes ~2 minutes and the slowest thorough job ~25 minutes on the
+		// machine this was built on; a deadline hit is reported as inconclusive (exit 2), never as success
+		*jobDeadline = 1500
 		if thorough {
-			*jobDeadline = 3000
+			*jobDeadline = 5400
 		}
 	}
 	var onlyRe *regexp.Regexp
